@@ -504,6 +504,22 @@ static void dispatch(const std::string& op, vh::Reader& r, vh::Out& o)
 		o.f(g[k]);
 		o.f(idx < g.size() ? g[idx] : std::nan(""));
 	}
+	// ---- DataPoint (Statistics.cpp section 4): the three ways of constructing one, and operator< operator> operator==
+	// dpcmp mode v1 w1 v2 w2: mode 0 DataPoint(v,w); 1 DataPoint(v) (default weight); 2 DataPoint() against DataPoint(v2,w2)
+	else if(op == "dpcmp")
+	{
+		long mode = r.integer();
+		double v1 = r.num(), w1 = r.num(), v2 = r.num(), w2 = r.num();
+		DataPoint a = (mode == 0) ? DataPoint(v1, w1) : ((mode == 1) ? DataPoint(v1) : DataPoint());
+		DataPoint b = (mode == 1) ? DataPoint(v2) : DataPoint(v2, w2);
+		o.f(a.value);
+		o.f(a.weight);
+		o.f(b.value);
+		o.f(b.weight);
+		o.i((a < b) ? 1 : 0);
+		o.i((a > b) ? 1 : 0);
+		o.i((a == b) ? 1 : 0);
+	}
 	else
 		o.w("HARNESSERR unknown_op");
 }
